@@ -1,6 +1,6 @@
 """Shared pipeline of the controller-runtime checks (C05, C15, C16)."""
 import json, os, re, copy
-import vlib
+import vlib, pipelib
 
 MC_CFGS = ["A", "Af", "B", "C", "D", "E", "F", "N"]
 
@@ -10,7 +10,8 @@ def model_check(ctx, cfgs):
         vlib.mc(ctx, "MC_Runtime", "MC_Runtime_%s.cfg" % c, timeout=3000)
 
 
-def drive(ctx, gens, nbeh, depth, name="rt"):
+def drive(ctx, gens, nbeh, depth, name="rt", hook_prop=None):
+    """hook_prop: also judge the pipeline hook traces of the runtimes the driver ran (TracePipe) for that property."""
     behs = []
     for g in gens:
         behs += vlib.gen_behaviours(ctx, "GenRuntime", "GenRuntime_%s.cfg" % g, num=nbeh // len(gens), depth=depth * 6,
@@ -21,7 +22,10 @@ def drive(ctx, gens, nbeh, depth, name="rt"):
     json.dump(behs, open(inp, "w"))
     binary = vlib.go_build_test(ctx, "c05")
     out = os.path.join(ctx.scratch, name + ".ndjson")
-    vlib.go_run(ctx, binary, "TestRuntime", {"VERIF_IN": inp, "VERIF_OUT": out}, timeout=3000)
+    henv, hdir = pipelib.traced(ctx, name) if hook_prop else ({}, None)
+    vlib.go_run(ctx, binary, "TestRuntime", dict({"VERIF_IN": inp, "VERIF_OUT": out}, **henv), timeout=3000)
+    if hook_prop:
+        pipelib.judge_driver(ctx, hook_prop, hdir, "TestRuntime(%s)" % name)
     if ctx.tier == "thorough" and name == "rt":
         vlib.race_stage(ctx, "c05", "TestRuntime", {"VERIF_IN": inp, "VERIF_OUT": out})
     return behs, out
